@@ -347,9 +347,15 @@ func (c *Canon) BoolResult(fd *ast.FuncDecl, target string) (*BExpr, bool) {
 							ok = false
 							continue
 						}
-						// later assignments override earlier ones on the same path: the
-						// fragment only admits monotone `target = true`/one full definition
-						result = BOr(result, and(path, c.BoolOf(x.Rhs[i])))
+						// flow-sensitive value of the target: an assignment under path condition P
+						// makes it (P && rhs[target := previous value]) || (!P && previous value),
+						// so `t = A; if c { t = t || B }` reads A || (c && B)
+						rhs := substAtom(c.BoolOf(x.Rhs[i]), c.Expr(l), result)
+						if path == nil {
+							result = rhs
+						} else {
+							result = BOr(BAnd(path, rhs), BAnd(BNot(path), result))
+						}
 					}
 				}
 			case *ast.DeclStmt, *ast.ExprStmt, *ast.IncDecStmt, *ast.EmptyStmt:
@@ -379,7 +385,74 @@ func (c *Canon) BoolResult(fd *ast.FuncDecl, target string) (*BExpr, bool) {
 		return path
 	}
 	walk(fd.Body.List, nil)
+	// a local defined once as a chain of field reads / argument-free method calls on an input
+	// (ro := reuse.DataOrder()) stands for that chain
+	defs := map[string]string{}
+	ast.Inspect(fd.Body, func(n ast.Node) bool {
+		as, isAs := n.(*ast.AssignStmt)
+		if !isAs || as.Tok != token.DEFINE || len(as.Lhs) != len(as.Rhs) {
+			return true
+		}
+		for i, l := range as.Lhs {
+			id, isId := l.(*ast.Ident)
+			if !isId {
+				continue
+			}
+			o := c.obj(id)
+			if o == nil || c.nAssign[o] > 1 {
+				continue
+			}
+			txt := c.Expr(as.Rhs[i])
+			if inputChain.MatchString(txt) {
+				defs[c.Expr(id)] = txt
+			}
+		}
+		return true
+	})
+	if len(defs) > 0 {
+		result = mapAtoms(result, func(a string) string {
+			for i := 0; i < 4; i++ {
+				b := localRef.ReplaceAllStringFunc(a, func(m string) string {
+					if d, ok := defs[m]; ok {
+						return d
+					}
+					return m
+				})
+				if b == a {
+					break
+				}
+				a = b
+			}
+			return a
+		})
+	}
 	return result, ok
+}
+
+var inputChain = regexp.MustCompile(`^\$[A-Za-z_]\w*(\.[A-Za-z_]\w*(\(\))?)+$`)
+var localRef = regexp.MustCompile(`%[A-Za-z_]\w*`)
+
+// substAtom replaces every occurrence of an atom by a formula.
+func substAtom(f *BExpr, atom string, by *BExpr) *BExpr {
+	if f == nil {
+		return nil
+	}
+	switch f.Op {
+	case "atom":
+		if f.Atom == atom {
+			return by
+		}
+		return f
+	case "const":
+		return f
+	case "not":
+		return BNot(substAtom(f.L, atom, by))
+	case "and":
+		return BAnd(substAtom(f.L, atom, by), substAtom(f.R, atom, by))
+	case "or":
+		return BOr(substAtom(f.L, atom, by), substAtom(f.R, atom, by))
+	}
+	return f
 }
 
 // ParseBool parses a canonical condition string back into a formula. Integer comparisons
